@@ -33,6 +33,8 @@ func containsReturn(n ast.Node) bool {
 }
 
 // usedOuter: local variables (parameters included) read in the nodes and declared before `before`
+var aliasDepth = 0
+
 func (f *g2lFn) usedOuter(nodes []ast.Node, before token.Pos, exclude map[*types.Var]bool) []*types.Var {
 	seen := map[*types.Var]bool{}
 	out := []*types.Var{}
@@ -53,6 +55,21 @@ func (f *g2lFn) usedOuter(nodes []ast.Node, before token.Pos, exclude map[*types
 				return true
 			}
 			if f.isWorldObj(v.Type()) {
+				return true
+			}
+			if f.nilAlias[v] {
+				return true
+			}
+			if al, ok := f.aliases[v]; ok && al != nil && aliasDepth < 8 {
+				// an inlined pointer parameter: what is used is whatever its place expression uses
+				aliasDepth++
+				for _, av := range f.usedOuter([]ast.Node{al}, before, exclude) {
+					if !seen[av] {
+						seen[av] = true
+						out = append(out, av)
+					}
+				}
+				aliasDepth--
 				return true
 			}
 			if cl, ok := f.closures[v]; ok {
@@ -185,6 +202,13 @@ func (f *g2lFn) buildLoop(sp *loopSpec, rest kont) []string {
 		return append(l, recur()...)
 	}
 	f.brk = &brkTarget{onBreak: exit, onContinue: next}
+	if f.pendingLabel != "" {
+		if f.loopLabels == nil {
+			f.loopLabels = map[string]labelTarget{}
+		}
+		f.loopLabels[f.pendingLabel] = labelTarget{loop: loop, brk: f.brk}
+		f.pendingLabel = ""
+	}
 	var body []string
 	if sp.prelude != nil {
 		body = append(body, sp.prelude()...)
@@ -402,6 +426,22 @@ func (f *g2lFn) rangeStmt(s *ast.RangeStmt, rest kont) []string {
 			return l
 		}
 		sp.post = func() []string { return []string{fmt.Sprintf("let %s := %s + %s", ri, ri, w)} }
+	case func() bool { _, ok := xt.Underlying().(*types.Map); return ok }():
+		// a map is an association list: iteration in insertion order over the value taken at the start (Go's order is
+		// unspecified; a loop whose result depends on it is outside what the translation can state)
+		sp.prelude = func() []string {
+			f.pure = false
+			pr := f.fresh("kv")
+			l := []string{fmt.Sprintf("let %s ← idxL %s %s", pr, x, ri)}
+			if keyName != "_" {
+				l = append(l, fmt.Sprintf("let %s := (%s).1", keyName, pr))
+			}
+			if valName != "_" {
+				l = append(l, fmt.Sprintf("let %s := (%s).2", valName, pr))
+			}
+			return l
+		}
+		sp.post = func() []string { return []string{fmt.Sprintf("let %s := %s + 1", ri, ri)} }
 	default:
 		if _, ok := xt.Underlying().(*types.Slice); !ok {
 			f.bad(s, "range over %s", xt)
@@ -455,5 +495,17 @@ func (f *g2lFn) varType(v *types.Var, at ast.Node) string {
 	if v == f.worldVar && v != nil {
 		return f.worldType
 	}
+	if sig, ok := v.Type().Underlying().(*types.Signature); ok && f.isWorldFnVar(v) {
+		ps := []string{}
+		for i := 0; i < sig.Params().Len(); i++ {
+			ps = append(ps, f.leanType(sig.Params().At(i).Type(), at))
+		}
+		return "(" + strings.Join(ps, " → ") + " → " + f.worldType + " → M (" + f.leanType(sig.Results(), at) + " × " + f.worldType + "))"
+	}
 	return f.leanType(v.Type(), at)
+}
+
+type labelTarget struct {
+	loop *g2lLoop
+	brk  *brkTarget
 }
